@@ -39,6 +39,18 @@ inductive Event
   | before (k : Kind) (o : Nat)      -- before_insert / before_update / before_delete of object o is entered
   | stmt (k : Kind) (o : Nat)        -- INSERT / UPDATE / DELETE for object o
   | after (k : Kind) (o : Nat)       -- after_insert / after_update / after_delete of object o is entered
+  | linkDel (a b : Nat)              -- DELETE of the many-to-many link row (a, b)     (remove_m2m)
+  | linkIns (a b : Nat)              -- INSERT of the many-to-many link row (a, b)     (add_m2m)
+  deriving DecidableEq, Repr, Inhabited
+
+/-- the many-to-many side of the cache, for one relationship, pairs (owner, item) -/
+structure Links where
+  view : List (Nat × Nat)            -- what the collections show in the session (the SetData contents of both sides)
+  pendAdd : List (Nat × Nat)         -- ⋃ setdata.added of the objects in cache.modified_collections
+  pendRem : List (Nat × Nat)         -- ⋃ setdata.removed
+  m2mAdd : List (Nat × Nat)          -- the local `modified_m2m` of the running round: pairs still to insert
+  m2mRem : List (Nat × Nat)          --                                                 pairs to delete
+  db : List (Nat × Nat)              -- the link table as written so far in this transaction
   deriving DecidableEq, Repr, Inhabited
 
 structure State where
@@ -47,6 +59,7 @@ structure State where
   modified : Bool                    -- cache.modified
   saved : List (Nat × Kind)          -- cache.saved_objects
   trace : List Event
+  lk : Links
   deriving DecidableEq, Repr, Inhabited
 
 /-- what a hook body may do -/
@@ -54,6 +67,8 @@ inductive HOp
   | read (o : Nat)
   | modify (o : Nat)                 -- assign an attribute of object o (the hooked object or any other)
   | create                           -- create a new object
+  | link (a b : Nat)                 -- a.coll.add(b)       (many-to-many; also `X(coll=[b])` after the creation of X)
+  | unlink (a b : Nat)               -- a.coll.remove(b)
   deriving DecidableEq, Repr, Inhabited
 
 inductive Err
@@ -75,6 +90,31 @@ def State.kindAt (s : State) (o : Nat) : Option Kind :=
   | some ob => kindOf ob.status
   | none => none
 
+/-- may object o own / be an item of a collection change: it exists and was not deleted (`throw_object_was_deleted`) -/
+def State.usable (s : State) (o : Nat) : Bool :=
+  match s.objs[o]? with
+  | some ob => !(ob.status == .markedToDelete || ob.status == .deleted)
+  | none => false
+
+/-- `SetInstance.add` / `SetInstance.remove` with `Set.reverse_add` / `reverse_remove`, many-to-many: the bookkeeping of
+    `setdata`, `setdata.added`, `setdata.removed`, `cache.modified_collections`, `cache.modified` (no status change, nothing queued) -/
+def applyLink (s : State) (a b : Nat) (add : Bool) : Except Err State :=
+  if !(s.usable a) then .error (.hookRaised a) else
+  if !(s.usable b) then .error (.hookRaised b) else
+  let p := (a, b)
+  let lk := s.lk
+  if add then
+    if lk.view.contains p then .ok { s with modified := true }                                  -- `new_items -= setdata`: nothing new
+    else if lk.pendRem.contains p then
+      .ok { s with modified := true, lk := { lk with view := lk.view ++ [p], pendRem := lk.pendRem.filter (· != p) } }
+    else .ok { s with modified := true, lk := { lk with view := lk.view ++ [p], pendAdd := lk.pendAdd ++ [p] } }
+  else
+    if lk.pendRem.contains p then .ok s                                                           -- `items -= setdata.removed; if not items: return`
+    else if !(lk.view.contains p) then .ok { s with modified := true }                           -- `items &= setdata`: nothing to remove
+    else if lk.pendAdd.contains p then
+      .ok { s with modified := true, lk := { lk with view := lk.view.filter (· != p), pendAdd := lk.pendAdd.filter (· != p) } }
+    else .ok { s with modified := true, lk := { lk with view := lk.view.filter (· != p), pendRem := lk.pendRem ++ [p] } }
+
 /-- one operation of a hook body (the status logic of `Attribute.__set__` / `Entity.__init__`) -/
 def applyOp (s : State) : HOp → Except Err State
   | .read _ => .ok s
@@ -89,6 +129,8 @@ def applyOp (s : State) : HOp → Except Err State
       | .loaded | .inserted | .updated =>
         .ok { (s.setObj o ⟨.modified, ob.dirty + 1⟩) with queue := s.queue ++ [some o], modified := true }
       | .markedToDelete | .deleted => .error (.hookRaised o)                              -- throw_object_was_deleted
+  | .link a b => applyLink s a b true
+  | .unlink a b => applyLink s a b false
 
 def runOps : List HOp → State → Except Err State
   | [], s => .ok s
@@ -145,14 +187,27 @@ def afterLoop (H : Hooks) : List (Nat × Kind) → State → Except Err State
 /-- `call_after_save_hooks`: `saved_objects` is taken and reset first -/
 def afterPhase (H : Hooks) (s : State) : Except Err State := afterLoop H s.saved { s with saved := [] }
 
-/-- one round of the loop in `SessionCache.flush` -/
+/-- `modified_m2m = cache._calc_modified_m2m()`: the pending link changes are taken into the local variable and the
+    `added` / `removed` sets of the collections are reset; then `remove_m2m` deletes the removed pairs -/
+def calcAndRemoveM2m (s : State) : State :=
+  { s with trace := s.trace ++ s.lk.pendRem.map (fun p => Event.linkDel p.1 p.2),
+           lk := { s.lk with m2mAdd := s.lk.pendAdd, m2mRem := s.lk.pendRem, pendAdd := [], pendRem := [],
+                             db := s.lk.db.filter (fun q => !(s.lk.pendRem.contains q)) } }
+
+/-- `add_m2m` after the save loop inserts the added pairs of the local `modified_m2m` -/
+def addM2m (s : State) : State :=
+  { s with trace := s.trace ++ s.lk.m2mAdd.map (fun p => Event.linkIns p.1 p.2),
+           lk := { s.lk with db := s.lk.db ++ s.lk.m2mAdd, m2mAdd := [], m2mRem := [] } }
+
+/-- one round of the loop in `SessionCache.flush`:
+    before-hooks → _calc_modified_m2m → remove_m2m → save loop → add_m2m → queue / flag reset → after-hooks -/
 def round (H : Hooks) (ord : List Nat → List Nat) (bfuel : Nat) (s : State) : Except Err State :=
   match beforeLoop H bfuel 0 s with
   | .error e => .error e
   | .ok s1 =>
-    match savePhase ord s1 with
+    match savePhase ord (calcAndRemoveM2m s1) with
     | .error e => .error e
-    | .ok s2 => afterPhase H { s2 with queue := [], modified := false }
+    | .ok s2 => afterPhase H { (addM2m s2) with queue := [], modified := false }
 
 /-- `for i in range(n): if not cache.modified: return; …; else: if cache.modified: throw(TransactionError, …)`;
     `ord r` is the statement order of the round with r rounds still to go -/
